@@ -36,7 +36,11 @@ RULE = ("accepted rule sets of 1-3 rules; each rule is one expression shape whos
         "`N of` (contiguous ids -> pat_range_match), `for N of`, `Q% of`, `for Q% i in (lo..hi)`, `for N i in range`, \\ % << >> and mixed arithmetic, `$a at N`, `$a in (lo..hi)`, "
         "`#a in (lo..hi)`, `@a[N]`, `!a[N]`, uintN/intN/floatN(N), math.abs, hash.*(off,size), math.*(off,len), console.log(off,len), plus 23 fixed conditions "
         "(nested loops, with, string operators, math.to_string/min/max/count/deviation, string.to_int, console, float arithmetic, bitwise, nested uintN, defined) "
-        "x buffers {empty, 1 byte, small random, pattern tokens, dense repetitive up to 4 KiB, tiny}; each (case, mode) in a child process through Scanner::scan, "
+        "and match-list shapes whose run-time bounds / indexes are placed around the REAL matches of the buffer (on a match, next to it, strictly between two matches, "
+        "before the first, after the last, beyond the data, negative) in every ordering lo<hi, lo=hi, lo>hi: `$a in`, `#a in`, `N of ($a,$b) in (lo..hi)`, "
+        "`for any i in (lo..hi) : ($a at i)`, `$a at N`, `@a[i]` / `!a[i]` with i in {0, 1, count-1, count, count+1, ..} (the distribution reports how many bounds are inverted with "
+        "matches strictly between them) "
+        "x buffers {empty, 1 byte, small random, pattern tokens, patterns at several offsets separated by filler, dense repetitive up to 4 KiB, tiny}; each (case, mode) in a child process through Scanner::scan, "
         "Scanner::scan_file, blocks::Scanner (scan + finish) and yrx_scanner_scan, followed by a scan of `Z` on the SAME scanner. "
         "Outcome: ok / err:<kind> / panic(site, message) / abort(signal) / hard-timeout. One evaluation = one (case, mode). Distinct = distinct rule-set source. "
         "The corpus of known defects runs first.")
